@@ -367,3 +367,21 @@ def shrink_candidates(inp):
     for key in ("ep", "en"):
         if inp[key] > 0:
             c = dict(inp); c[key] = 0; yield c
+
+
+# --------------------------------------------------------------------------------------
+# second tie: the decision tables of this property regenerated from the source on every run
+# (harness/dectables.py -> generated Lean file checked by the kernel; bridge: SA/Theorems/DecTables.lean)
+# --------------------------------------------------------------------------------------
+def extra_gate_start():
+    """start the translator + Lean check in a child process; the cases run meanwhile"""
+    import common
+    import dectables
+    return dectables.start(common.REPO)
+
+
+def extra_gate_finish(handle):
+    """-> {problems, theorems, obligations, discharged, notes, evidence}; a definite mismatch of a table row is a
+    broken proof obligation, `unknown` rows are evidence only"""
+    import dectables
+    return dectables.gate_result(dectables.finish(handle), ID)
